@@ -6,7 +6,7 @@
    threads running Create / Update / Delete and of asynchronous rewrites, any request inputs, any
    environment choice per engine call, sequencer iterations anywhere) from any well-formed store. *)
 From KB Require Import Model.RevSys Model.KeySys Model.C01Cases Model.C04Cases.
-From KB Require Import Proofs.RevSys Proofs.KeySys Proofs.KeySysLog Proofs.KeySysProps Proofs.KeySysUniq Proofs.SchedCases Proofs.SchedLink Proofs.RevSysBlock.
+From KB Require Import Proofs.RevSys Proofs.KeySys Proofs.KeySysLog Proofs.KeySysProps Proofs.KeySysUniq Proofs.SchedCases Proofs.SchedLink Proofs.RevSysBlock Proofs.SchedCount Proofs.SchedHold.
 Local Open Scope N_scope.
 
 (* ----- RevSys: threads allocate and report in any order; tso.Commit is three atomic steps ----- *)
@@ -130,6 +130,25 @@ Theorem C04_oracle_records_complete_sound_partial : forall c, sched_check c = tr
   records_complete c (case_records c) = true.
 Proof. exact sched_records_complete_sound_checked. Qed.
 Print Assumptions C04_oracle_records_complete_sound_partial.
+
+(* proved clause, the revision count: every client request of the case was stamped with exactly one revision, every
+   repair with at most one — initial + clients + 1 <= marker <= initial + requests + 1. Model side
+   (Proofs/SchedCount.v): the allocation counter plus the requests still to be stamped (queued, or in flight before
+   their Deal) never exceeds initial + requests, and plus the client requests still to be stamped never falls below
+   initial + clients *)
+Theorem C04_oracle_revision_count_sound_partial : forall c, sched_check c = true ->
+  (sc_d0 c + N.of_nat (nclient c) + 1 <=? sc_marker c) && (sc_marker c <=? sc_d0 c + N.of_nat (nreqs c) + 1) = true.
+Proof. exact sched_revcount_sound_checked. Qed.
+Print Assumptions C04_oracle_revision_count_sound_partial.
+
+(* proved part of the clause hold_ok: for every record whose answer carries its revision x and whose commit was held
+   inside the engine during step j (step kind KHold), every sample up to and including step j is below x — at a KHold
+   step the model thread stands before its commit, so x is unresolved. (For error answers hold_ok reads the revision
+   off the final dump by the request's value; that half is not proved, see gaps.) *)
+Theorem C04_oracle_hold_exact_sound_partial : forall c, sched_check c = true ->
+  forallb (hold_exact_ok c) (case_records c) = true.
+Proof. exact sched_hold_exact_sound_checked. Qed.
+Print Assumptions C04_oracle_hold_exact_sound_partial.
 
 (* once resolved (allocated and held by nobody), a revision stays resolved *)
 Theorem C04_resolved_stays_resolved : forall cidx0 s l x, kinv s -> unresolved (kstep cidx0 s l) x -> unresolved s x.
